@@ -350,6 +350,10 @@ func c13SwapGuard(c *Ctx) {
 			a := callArgs(s)
 			ok := p.Name(fn) == "stickyBalanceStrategy.reassignPartition"
 			detail := "a partition is moved without consulting the movement record (called from " + p.Name(fn) + ")"
+			if shapes := p.stickyMoveShapes(); ok && shapes != nil && shapes.isHandBack(p, s) {
+				c.OK(rule, fn, "hand-back-to-earlier-owner", s.Instr(), "the requested partition returns to the member it came from in this plan, under owner(chosen) != owner(partition): together with the chosen partition's move both are back where the plan found them — no exchange between two members")
+				continue
+			}
 			if ok {
 				ok = false
 				detail = "the partition moved is not the one chosen by getTheActualPartitionToBeMoved for this (old owner, new owner) pair"
@@ -693,4 +697,62 @@ func c13BalanceTest(c *Ctx) {
 	if n == 0 {
 		c.Unresolved(rule, "search loops of isBalanced (loops that can return false)")
 	}
+}
+
+// ---------------------------------------------------------------- the sticky "hand back" move (F22)
+
+// stickyMoveShapes recognises, inside stickyBalanceStrategy.reassignPartition, the values
+//   consumer := currentPartitionConsumer[partition]
+//   chosen   := movements.getTheActualPartitionToBeMoved(partition, consumer, newConsumer)
+//   owner    := currentPartitionConsumer[chosen]
+// by their construction from the function's parameters (whatever the locals are called).
+type stickyMoveShapes struct {
+	fn                      *ssa.Function
+	hPart, hOwners, hNew    int
+	consumer, chosen, owner VM
+}
+
+func (p *Program) stickyMoveShapes() *stickyMoveShapes {
+	fn := p.Fn("stickyBalanceStrategy.reassignPartition")
+	if fn == nil {
+		return nil
+	}
+	m := &stickyMoveShapes{fn: fn}
+	m.hPart, m.hOwners, m.hNew = paramIdxByName(fn, "partition", 1), paramIdxByName(fn, "currentPartitionConsumer", 4), paramIdxByName(fn, "newConsumer", 5)
+	m.consumer = func(v ssa.Value) bool {
+		lk, ok := strip(v).(*ssa.Lookup)
+		return ok && ParamN(m.hOwners)(lk.X) && ParamN(m.hPart)(lk.Index)
+	}
+	m.chosen = func(v ssa.Value) bool {
+		cl, ok := strip(v).(*ssa.Call)
+		return ok && p.CalleeName(&cl.Call) == "partitionMovements.getTheActualPartitionToBeMoved" && len(cl.Call.Args) == 4 &&
+			ParamN(m.hPart)(cl.Call.Args[1]) && m.consumer(cl.Call.Args[2]) && ParamN(m.hNew)(cl.Call.Args[3])
+	}
+	m.owner = func(v ssa.Value) bool {
+		lk, ok := strip(v).(*ssa.Lookup)
+		return ok && ParamN(m.hOwners)(lk.X) && m.chosen(lk.Index)
+	}
+	return m
+}
+
+// isHandBack: the call (in reassignPartition) is processPartitionMovement(partition, owner, …) under owner != consumer:
+// the requested partition goes back to the member it came from earlier in this plan, because the partition the
+// movement record chose to travel in its place sits on that member and not on the requested partition's current owner.
+// Under that guard chosen ≠ partition (their owners differ), so chosen was taken from the reverse record
+// {newConsumer → owner} of the same topic: owner holds a partition of that topic (it is subscribed, hence eligible for
+// `partition`, which it owned when this plan started) and took part in an earlier move of this plan (so it is a
+// participating member, not one set aside as fixed).
+func (m *stickyMoveShapes) isHandBack(p *Program, s Item) bool {
+	cl, ok := s.In.(*ssa.Call)
+	if !ok || cl.Parent() != m.fn || p.CalleeName(&cl.Call) != "stickyBalanceStrategy.processPartitionMovement" {
+		return false
+	}
+	callee := cl.Call.StaticCallee()
+	a := cl.Call.Args
+	iPart, iNew := paramIdxByName(callee, "partition", 1), paramIdxByName(callee, "newConsumer", 2)
+	if iPart >= len(a) || iNew >= len(a) || !ParamN(m.hPart)(a[iPart]) || !m.owner(a[iNew]) {
+		return false
+	}
+	g, _ := WholeFn(m.fn).Guarded(s, Cmp{token.NEQ, m.owner, m.consumer})
+	return g
 }
